@@ -81,6 +81,13 @@ func c08Corpus() [][]c08seg {
 		{sT("<s>"), sN("@slot", 0), sT("-"), sD("@slot", `"n"`, 0), sT("</s>")},
 		{sD("@if", "x", 1), sD("@component", `"c"`, 0), end},
 		{sD("@each", "v in [1]", 1), sD("@for", "j = 0; j < 2; j++", 1), sP("j"), end, end},
+		// blocks nested at the very end of insert blocks and slot bodies (their @end is not the body's @end)
+		{sD("@use", `"l"`, 0), sD("@insert", `"x"`, 1), sD("@if", "a", 1), sT("b"), end, end, sT("z")},
+		{sD("@insert", `"x"`, 1), sT("t"), sD("@each", "v in a", 1), sP("v"), sN("@else", 0), sT("n"), end, end},
+		{sD("@component", `"c"`, 0), sD("@slot", `"s"`, 2), sD("@if", "a", 1), sT("b"), end, end, end},
+		{sD("@component", `"c"`, 0), sN("@slot", 2), sD("@for", "i = 0; i < 1; i++", 1), sP("i"), end, end, sD("@slot", `"n"`, 1), sD("@if", "a", 1), sT("x"), sN("@else", 0), sT("y"), end, end, end, sT(" tail")},
+		{sD("@if", "a", 1), sD("@insert", `"x"`, 1), sD("@if", "b", 1), sT("c"), end, end, end},
+		{sD("@each", "v in a", 1), sD("@component", `"c"`, 0), sN("@slot", 2), sD("@if", "v", 1), sP("v"), end, end, end, end},
 	}
 }
 
